@@ -161,7 +161,7 @@ VERUS_UNITS = {
     },
     'runner': {
         'template': 'runner.rs.tpl',
-        'owners': [(r'syscommand_runner$', ['C03', 'C05', 'C07', 'C12', 'C13', 'C18']), (r'replay_buffered$', ['C03', 'C05', 'C12', 'C18']), (r'kept_of$', ['C12'])],
+        'owners': [(r'syscommand_runner$', ['C03', 'C05', 'C07', 'C12', 'C13', 'C18']), (r'replay_buffered(_\d+)?$', ['C03', 'C05', 'C12', 'C18']), (r'kept_of$', ['C12'])],
         'negctl': [
             ('(w_out.counter().0 == 0 && w_out.queue().commands@.len() == 0))', '(w_out.counter().0 == 1 && w_out.queue().commands@.len() == 0))', 'syscommand_runner'),
             ('idx != 0) ==> (w_out.queue().commands@ == w0.queue().commands@.push(', 'idx != 0) ==> (w_out.queue().commands@ == w0.queue().commands@.drop_last().push(', 'syscommand_runner'),
